@@ -4,7 +4,7 @@
 Require Extraction.
 Require Import ExtrOcamlBasic.
 From Similar Require Import Model.Base Model.Utils Model.Myers Model.Lcs Model.Hooks
-     Model.Patience Model.Compact Model.Capture Model.Iter Model.Utf8 Model.Tokenize Model.TextDiff Model.Inline Spec.Patch Spec.Script Spec.Group Check.Script Check.Tokens Proofs.Iter.
+     Model.Patience Model.Compact Model.Capture Model.Iter Model.Utf8 Model.Tokenize Model.TextDiff Model.Inline Spec.Patch Spec.UdiffParse Spec.Script Spec.Group Check.Script Check.Tokens Proofs.Iter.
 
 
 Extraction "../ocaml/model.ml"
@@ -19,5 +19,5 @@ Extraction "../ocaml/model.ml"
   expand_op expand_all group_ref check_groups
   decode valid_utf8 is_whitespace lossy len_utf8 tokenize tok_bytes ends_with_newline
   textdiff_ops newline_flag bytes_eqb oracles_of_items render_udiff remap_indexes remap_ops
-  inline_changes check_patch apply_strict hunk_shape_ok
+  inline_changes check_patch apply_strict hunk_shape_ok parse_udiff norm_line
   check_partition check_tokens.
